@@ -57,8 +57,12 @@ def _fake_sig(n, short=False):
 
 
 def _sig(n):
-    # every tenth signature is a short (low-r style) one
-    return _fake_sig(n, short=(n % 10 == 0))
+    # every tenth signature is a short (low-r style) one; one in four carries another hash type byte than
+    # SIGHASH_ALL (NONE, SINGLE, the ANYONECANPAY combinations) - parsers must keep it
+    s = _fake_sig(n, short=(n % 10 == 0))
+    if n % 4 == 1:
+        s = s[:-1] + bytes([[0x02, 0x03, 0x81, 0x82, 0x83][(n // 4) % 5]])
+    return s
 
 
 def standard_spk():
